@@ -14,6 +14,11 @@ use std::sync::Mutex;
 use trippy_core::MultipathStrategy;
 
 fn junk_menu(t: &Task, sibling_delta: u16) -> Vec<JunkKind> {
+    if t.topo == "far-target-late" {
+        // slots 201..253 keep the Awaited probes of the long first round; after the wrap-around
+        // their sequence numbers are in the window again
+        return vec![JunkKind::NeverSent(230), JunkKind::NeverSent(253), JunkKind::NeverSent(201), JunkKind::NextUnissued];
+    }
     let mut v = vec![JunkKind::Duplicate, JunkKind::Late, JunkKind::NextUnissued, JunkKind::NeverSent(-1), JunkKind::NeverSent(511), JunkKind::NeverSent(512), JunkKind::NeverSent(300)];
     if t.cell.proto == Proto::Icmp {
         v.push(JunkKind::ForeignId(sibling_delta));
@@ -140,6 +145,27 @@ pub fn run(args: &Args) -> i32 {
                 tasks.push((Task { cell, topo: "silent-target", params: p, bound: 1 }, 1));
             }
         }
+    }
+    // a long first round (254 probes, target silent), then shorter rounds (target at distance 200
+    // answers), then the wrap-around: leftovers of round 0 sit in slots the new round has not
+    // reached while their sequence numbers are valid again
+    for cell in drive::base_cells() {
+        let general = cell.proto == Proto::Icmp;
+        let dublin6 = cell.strategy == MultipathStrategy::Dublin && cell.v6;
+        if !(general || dublin6) {
+            continue;
+        }
+        let mut p = TraceParams::default();
+        p.rounds = 4;
+        p.initial_sequence = if dublin6 { 33434 } else { 64511 };
+        p.max_ttl = 254;
+        p.max_inflight = 255;
+        p.read_timeout = std::time::Duration::from_micros(10);
+        p.min_round = std::time::Duration::from_micros(10 * 257);
+        p.max_round = std::time::Duration::from_micros(10 * 257);
+        p.grace = std::time::Duration::from_micros(1);
+        p.packet_size = if cell.v6 { 96 } else { 84 };
+        tasks.push((Task { cell, topo: "far-target-late", params: p, bound: 1 }, 1));
     }
     let agg = Mutex::new(Agg::default());
     let max_points = 1500;
@@ -269,7 +295,7 @@ pub fn replay(path: &str) -> i32 {
     let r = if v.get("replay").is_some() { &v["replay"] } else { &v };
     let cell = drive::all_cells()[r["cell_index"].as_u64().expect("cell_index") as usize];
     let topo_name = r["topo"].as_str().expect("topo").to_string();
-    let topo: &'static str = drive::TOPOLOGIES.iter().chain(["L4", "refuse", "silent-all"].iter()).find(|t| **t == topo_name).copied().expect("MACHINERY: topo");
+    let topo: &'static str = drive::TOPOLOGIES.iter().chain(["L4", "refuse", "silent-all", "far-target-late"].iter()).find(|t| **t == topo_name).copied().expect("MACHINERY: topo");
     let params = c01::params_from_json(&r["params"]);
     let delta = r["sibling_delta"].as_u64().unwrap_or(1) as u16;
     let choices: Vec<u16> = r["choices"].as_array().expect("choices").iter().map(|c| c.as_u64().unwrap() as u16).collect();
